@@ -489,6 +489,54 @@ def run_request(acc, job):
                                               repr(target), 'request')
                             acc.outcome('request-ok')
     core.quiet_logging()
+    # the configured encoding is read at every call: (a) one enforcer whose
+    # remote_content_type option is changed between calls, (b) ONE parsed
+    # check object handed to two differently configured enforcers in turn
+    from oslo_policy import _parser
+    form, js = 'application/x-www-form-urlencoded', 'application/json'
+    with world.HttpStub(responder) as stub:
+        for scheme in ('http', 'https'):
+            for seq in itertools.product((form, js), repeat=3):
+                for how in ('reconfigure', 'shared-object'):
+                    text = '%s://srv.test/v1/%%(name)s' % scheme
+                    if how == 'reconfigure':
+                        enf1 = enforcer(seq[0])
+                        world.set_rules(enf1, {'p': text})
+                        rule = 'p'
+                    else:
+                        enfs = {ct: enforcer(ct) for ct in (form, js)}
+                        rule = _parser.parse_rule(text)
+                    acc.case('request', True)
+                    for step, ct in enumerate(seq):
+                        if how == 'reconfigure':
+                            enf1.conf.set_override('remote_content_type', ct,
+                                                   group='oslo_policy')
+                            e = enf1
+                        else:
+                            e = enfs[ct]
+                        del stub.calls[:]
+                        acc.ev()
+                        got = world.decide(e, rule, {'name': 'n1'},
+                                           {'roles': ['r']})
+                        hdr = stub.calls[0][0].headers.get(
+                            'Content-Type', '') if stub.calls else None
+                        ok = got == ('ok', True) and hdr is not None and \
+                            hdr.startswith(ct)
+                        if ok:
+                            try:
+                                decode_payload(stub.calls[0][0], ct)
+                            except Exception:
+                                ok = False
+                        if not ok:
+                            acc.violation(
+                                'request|encoding-history|%s' % how,
+                                'call %d of %r (%s): configured encoding %s, '
+                                'request sent as %r, decision %r' %
+                                (step + 1, seq, how, ct, hdr, got),
+                                {'sequence': list(seq), 'how': how,
+                                 'scheme': scheme}, ct, hdr, 'request')
+                            break
+                    acc.outcome('encoding-history')
     acc.sample('request', {'policy': NAMES[2], 'target': 'nested/opaque'})
 
 
